@@ -21,12 +21,15 @@ NEEDS_TIMEOUT = {"timeout_mid", "timeout_idle"}
 
 
 class Resource:
-    def __init__(self, lab, rid):
+    def __init__(self, lab, rid, raises=False):
         self.lab = lab
         self.rid = rid
+        self.raises = raises
 
     def close(self):
         self.lab.log.append({"e": "ResClose", "r": self.rid})
+        if self.raises:
+            raise RuntimeError("closing resource %d failed" % self.rid)
 
 
 def make_targets(lab):
@@ -155,7 +158,8 @@ def run_scenarios(scens, servertype, timeout, seed):
             lab.log = []
             sc.set_budget(4000)
             lab.hook_raises = scen["hookraise"]
-            lab.resources = {i: Resource(lab, i) for i in range(1, 5)}
+            lab.resources = {i: Resource(lab, i, raises=(scen.get("resraise", False) and i == (2 if scen["untrack"] and scen["ntrack"] > 1 else 1)))
+                             for i in range(1, 5)}
             lab.session_refs = []
             hang = False
             try:
@@ -239,8 +243,8 @@ def run(ctx):
     tlc.mc(ctx, "Daemon", cfg_text=c08.MC_CFG % (c08.SAMPLES[0], ctx.pick(8, 9)))
     tlc.mc(ctx, "Daemon", cfg_text=c08.MC_CFG % (c08.SAMPLES[1], ctx.pick(8, 9)))
     scens = tlc.gen(ctx, "Gen_Cleanup", cfg="Gen_Cleanup.cfg")
-    if len(scens) != 600:
-        raise util.MachineryError("expected 600 cleanup scenarios, got %d" % len(scens))
+    if len(scens) != 1080:
+        raise util.MachineryError("expected 1080 cleanup scenarios, got %d" % len(scens))
     sers = ["serpent", "json", "marshal", "msgpack"]
     groups = {}
     for i, s in enumerate(scens):
@@ -273,7 +277,7 @@ def run(ctx):
         if tr[-1].get("hang"):
             v13 = v13 or "C13.Hang"
         if v13:
-            ctx.violation("%s [ending=%s server=%s%s]" % (v13, m["ending"], m["server"], " hookraise" if m["hookraise"] else ""),
+            ctx.violation("%s [ending=%s server=%s%s]" % (v13, m["ending"], m["server"], (" hookraise" if m["hookraise"] else "") + (" resraise" if m.get("resraise") else "")),
                           {"scenario": m, "trace": tr})
     if not ctx.violations and (hooks < len(traces) // 2 or rcl < len(traces) // 4):
         raise util.MachineryError("vacuity: hooks=%d resource closes=%d over %d traces" % (hooks, rcl, len(traces)))
